@@ -1,7 +1,7 @@
 """Shared behavioural run: generated templates x data histories executed under node (jsrt).
 Results are cached per (tier, seed, hash of /repo sources + harness + jsrt)."""
 import hashlib
-import json
+import json, zlib
 import os
 import pickle
 from vcheck import *
@@ -48,7 +48,9 @@ def get_results(tier, seed, kind="behave"):
             steps.append({"update": d1, "U": u})
         base = {"op": "run", "bundle": j["bundle"], "path": j["path"], "slotValues": j.get("slotValues")}
         index.append(len(jobs))
-        jobs.append(dict(base, id="h", steps=steps, log=True))
+        # one history in three hands the trees over in the form the runtime builds for array splices (index marks inherited
+        # from a prototype array)
+        jobs.append(dict(base, id="h", steps=steps, log=True, arrayTrees=(zlib.crc32(j["src"].encode("utf8")) % 3 == 0)))
         for d1 in j["datas"][1:]:
             jobs.append(dict(base, id="f", steps=[{"create": d1}], log=False))
     out = node_jobs(jobs, shards=12)
